@@ -14,6 +14,13 @@ import Mathlib.Tactic.FinCases
 import Mathlib.Data.Rat.Defs
 import Mathlib.Data.Fin.VecNotation
 import Mathlib.Algebra.BigOperators.Fin
+import ClarabelProofs.Lemmas.InfoEndToEnd
+import ClarabelProofs.Lemmas.InfoEndToEndExample
+import ClarabelProofs.Lemmas.InfoNorms
+import ClarabelProofs.Lemmas.InfoConeScale
+import ClarabelProofs.Lemmas.InfoConesAll
+import ClarabelProofs.Lemmas.InfoPresolveUser
+import ClarabelProofs.Props.C09
 
 namespace Clarabel.C01
 open Clarabel.Dense Clarabel.Info Finset
@@ -374,6 +381,206 @@ theorem certificate (p : Problem ℝ n m) (sc : Scaling ℝ n m)
 
 end certificate
 
+
+/-! ## Round 3 — end to end on the USER's data, all seven cone kinds, presolve -/
+
+section endtoend
+open Clarabel.InfoUser Clarabel.Residuals
+
+/-- **[R] `C01.residuals_update_dense`** — `DefaultResiduals::update` computes the dense
+residuals (imports C16).  On canonical CSC `P` (n×n, one triangle), `A` (m×n) and vectors /
+buffers of the lengths `DefaultSolver::new` allocates, `Residuals.update` (the model tied
+bit-for-bit to the Rust code by the channel `residuals.update`) does not panic, and what it
+returns is — read as functions on `Fin n`, `Fin m` — `rx = −Aᵀz − Px − τq`, `rz = Ax + s − τb`,
+`rx_inf = −Aᵀz`, `rz_inf = Ax + s`, `Px`, `qᵀx`, `bᵀz`, `xᵀPx` of the dense problem the CSC
+data mean (`P` standing for the symmetric matrix whose triangle it holds).  The imperative
+kernels of `Residuals.lean` are identified with C16's (`update_eq_updateK`), whose dense
+meaning is `C16.symv_spec`, `C16.gemvT_spec`, `C16.gemvN_spec`. -/
+theorem residuals_update_dense (r0 : Resid ℝ) (v : Vars ℝ) (P A : Csc ℝ) (q b : Array ℝ) (n m : ℕ)
+    (hP : C16.Canonical P) (hA : C16.Canonical A)
+    (hPn : P.n = n) (hPm : P.m = n) (hAn : A.n = n) (hAm : A.m = m)
+    (hq : q.size = n) (hb : b.size = m) (hsh : StateShapes n m v r0) :
+    ∃ r, Residuals.update r0 v { P := P, q := q, A := A, b := b } = .ok r
+      ∧ vecFn r.rx n = rx (problemOf P q A b n m) (vecFn v.x n) (vecFn v.z m) v.τ
+      ∧ vecFn r.rz m = rz (problemOf P q A b n m) (vecFn v.x n) (vecFn v.s m) v.τ
+      ∧ vecFn r.rx_inf n = rxInf (problemOf P q A b n m) (vecFn v.z m)
+      ∧ vecFn r.rz_inf m = rzInf (problemOf P q A b n m) (vecFn v.x n) (vecFn v.s m)
+      ∧ vecFn r.Px n = mulV (problemOf P q A b n m).P (vecFn v.x n)
+      ∧ r.dot_qx = dot (problemOf P q A b n m).q (vecFn v.x n)
+      ∧ r.dot_bz = dot (problemOf P q A b n m).b (vecFn v.z m)
+      ∧ r.dot_xPx = dot (vecFn v.x n) (mulV (problemOf P q A b n m).P (vecFn v.x n)) := by
+  obtain ⟨r, hr, -, -, -, -, -, b1, b2, b3, b4, b5, b6, b7, b8⟩ :=
+    updateK_dense r0 v P A q b n m hP hA hPn hPm hAn hAm hq hb hsh.x hsh.s hsh.z hsh.Px hsh.rx
+      hsh.rz hsh.rxi hsh.rzi
+  have hbridge := Residuals.update_eq_updateK r0 v { P := P, q := q, A := A, b := b } hP hA
+    (by show P.m = P.n; rw [hPm, hPn]) (by show v.x.size = P.n; rw [hsh.x, hPn])
+    (by show v.x.size = A.n; rw [hsh.x, hAn]) (by show v.z.size = A.m; rw [hsh.z, hAm])
+    (by show v.s.size = A.m; rw [hsh.s, hAm]) (by show r0.Px.size = P.n; rw [hsh.Px, hPn])
+    (by show r0.rx_inf.size = A.n; rw [hsh.rxi, hAn])
+  exact ⟨r, by rw [hbridge]; exact hr, b1, b2, b3, b4, b5, b6, b7, b8⟩
+
+/-- **[R] `C01.solved_certifies_user_problem`** — the property, end to end, with no assumed
+relation left between internal and user data.
+
+Let `dt` be the problem data as `DefaultProblemData::new` leaves them (`UserData`: fresh
+equilibration record, consistent shapes, `P`, `A` canonical CSC, cone list covering the `m`
+rows, positive scaling bounds), let `dt'` be what the model's own `Equil.equilibrate` returns
+for them, `r` what `Residuals.update` returns for an iterate `v` (`τ > 0`) on the INTERNAL
+data `dt'`, `info'` what `Info.update` assigns from `r`, `v` and `dt'.equilibration`.  If
+`check_convergence_full` then turns a non-`Solved` status into `Solved`, the point
+`(x, s, z)` that `Variables.unscale` returns satisfies the documented termination test on the
+USER's data `P, q, A, b` (dense meaning of `dt.P` — the symmetric matrix whose triangle it
+holds —, `dt.q`, `dt.A`, `dt.b`):
+`‖Ax+s−b‖₂ / max(1, normb+‖x‖₂+‖s‖₂) < tol_feas`,
+`‖Px+Aᵀz+q‖₂ / max(1, normq+‖x‖₂+‖z‖₂) < tol_feas`, and with `p = ½xᵀPx+qᵀx`,
+`d = −bᵀz−½xᵀPx`: `|p−d| < tol_gap_abs` or `|p−d| / max(1, min(|p|,|d|)) < tol_gap_rel`;
+and `|x| = n`, `|s| = |z| = m`.
+
+Composition of `C10.scaled_data` / `inverse_scalings` / `scalings_positive` (equilibration is
+the exact change of variables `cDPD, cDq, EAD, Eb` with positive `d, e, c`),
+`C16.symv_spec` / `gemvT_spec` / `gemvN_spec` (sparse kernels = dense products),
+`residual_unscale` / `cost_unscale` and `solved_implies_test`.  `normb`, `normq` are the
+numbers handed to `Info.update` (the cached `‖b‖∞`, `‖q‖∞`). -/
+theorem solved_certifies_user_problem (dt dt' : ProblemData ℝ) (cones : List (ConeT ℝ))
+    (es : Equil.Settings ℝ) (hu : UserData dt cones es)
+    (heq : Equil.equilibrate dt cones es = .ok dt')
+    (v : Vars ℝ) (r0 r : Resid ℝ) (hsh : StateShapes dt.n dt.m v r0) (hτ : 0 < v.τ)
+    (hr : Residuals.update r0 v (toResidData dt') = .ok r)
+    (i i' : InfoS ℝ) (normq normb : ℝ)
+    (hi : Info.update i (toInfoEquil dt'.equilibration) normq normb v r = .ok i')
+    (s : Settings ℝ) (h0 : i'.status ≠ .solved)
+    (h : (checkConvergenceFull i' r.dot_bz r.dot_qx s).status = .solved) :
+    let out := Unscale.unscale v (toInfoEquil dt'.equilibration) false
+    let p := problemOf dt.P dt.q dt.A dt.b dt.n dt.m
+    let x := vecFn out.x dt.n
+    let sv := vecFn out.s dt.m
+    let z := vecFn out.z dt.m
+    let pobj := dot x (mulV p.P x) / 2 + dot p.q x
+    let dobj := -dot p.b z - dot x (mulV p.P x) / 2
+    nrm (fun i => mulV p.A x i + sv i - p.b i) / max 1 (normb + nrm x + nrm sv) < s.full.feas
+    ∧ nrm (fun j => mulV p.P x j + mulVT p.A z j + p.q j) / max 1 (normq + nrm x + nrm z) < s.full.feas
+    ∧ (|pobj - dobj| < s.full.gap_abs
+        ∨ |pobj - dobj| / max 1 (min |pobj| |dobj|) < s.full.gap_rel)
+    ∧ out.x.size = dt.n ∧ out.s.size = dt.m ∧ out.z.size = dt.m :=
+  solved_chain dt dt' cones es hu heq v r0 r hsh hτ hr i i' normq normb hi s h0 h
+
+/-- **[R] `C01.cone_membership` (generalised power cone)** — the model's own feasibility tests
+`GenPowerCone::is_primal_feasible` / `is_dual_feasible` are invariant under the positive
+uniform scaling `unscale` applies on such a cone (`unscale_uniform`; `αᵢ > 0`, `Σαᵢ = 1` as the
+constructor asserts).  Uses C14's characterisation of the tests (`NonsymGenPow.lean`). -/
+theorem cone_membership_genpow (al seg : Array ℝ) (k : ℝ) (hk : 0 < k)
+    (ha : GenPow.AllPos al.toList) (hsum : al.toList.sum = 1) :
+    (GenPow.isPrimalFeasible al seg = .ok true → GenPow.isPrimalFeasible al (Vec.scale seg k) = .ok true)
+    ∧ (GenPow.isDualFeasible al seg = .ok true → GenPow.isDualFeasible al (Vec.scale seg k) = .ok true) :=
+  ⟨(InfoCone.genpow_isPrimalFeasible_scale_vec al seg k hk hsum).mpr,
+   (InfoCone.genpow_isDualFeasible_scale_vec al seg k hk ha hsum).mpr⟩
+
+/-- **[R] `C01.cone_membership` (PSD cone, svec form)** — stated on the quadratic form
+`vᵀ mat(x) v` with `mat = svec_to_mat` (C13, `ConesPsdSvec.lean`): positive semidefiniteness
+and positive definiteness of `mat(x)` are invariant under the positive uniform scaling
+`unscale` applies on the cone's segment.  The cone is self-dual: the same statement serves `z`. -/
+theorem cone_membership_psd (n : ℕ) (seg : Array ℝ) (k : ℝ) (hk : 0 < k) :
+    (InfoCone.PsdSvec n seg → InfoCone.PsdSvec n (Vec.scale seg k))
+    ∧ (InfoCone.PdSvec n seg → InfoCone.PdSvec n (Vec.scale seg k)) :=
+  ⟨(InfoCone.psd_scale_vec n seg k hk).mpr, (InfoCone.pd_scale_vec n seg k hk).mpr⟩
+
+/-- **[R] `C01.returned_point_in_cones`** — `s ∈ K`, `z ∈ K*` for the returned point, ALL
+SEVEN cone kinds in one statement.  For the scalings the model's own `equilibrate` returns
+(`e` is uniform on every non-scalar cone: C10's `uniformOn_equilibrate`) and a cone list with
+admissible parameters: if the internal iterate has `ŝ ∈ K`, `ẑ ∈ K*` (product cone cut
+along the cone list as `rng_cones` does; per cone the model's own `is_primal_feasible` /
+`is_dual_feasible` for exp / pow / genpow, `‖v‖² ≤ t², t ≥ 0` for the second-order cone,
+`vᵀ mat(s) v ≥ 0 ∀v` for the PSD triangle, entrywise for zero / nonnegative), then so has the
+τ-normalised point `unscale` returns. -/
+theorem returned_point_in_cones (dt dt' : ProblemData ℝ) (cones : List (ConeT ℝ))
+    (es : Equil.Settings ℝ) (hlo : 0 < es.minScaling) (hhi : 0 < es.maxScaling)
+    (hfresh : dt.equilibration = EquilData.new dt.n dt.m) (hv : Equil.ValidCones cones)
+    (heq : Equil.equilibrate dt cones es = .ok dt')
+    (v : Vars ℝ) (hs : v.s.size = dt.m) (hz : v.z.size = dt.m) (hτ : 0 < v.τ)
+    (hsK : Equil.CompositeMem Equil.ConeMem cones v.s.toList)
+    (hzK : Equil.CompositeMem Equil.ConeMemDual cones v.z.toList) :
+    let out := Unscale.unscale v (toInfoEquil dt'.equilibration) false
+    Equil.CompositeMem Equil.ConeMem cones out.s.toList
+    ∧ Equil.CompositeMem Equil.ConeMemDual cones out.z.toList :=
+  InfoCone.unscaled_point_in_cones dt dt' cones es hlo hhi hfresh hv heq v hs hz false
+    (by simpa using hτ) hsK hzK
+
+end endtoend
+
+section presolved
+open Clarabel.InfoUser Clarabel.InfoPresolve Clarabel.Residuals
+
+/-- **[R] `C01.solved_certifies_user_problem_presolved`** — rows dropped by presolve, excepted
+exactly as the property says.  Let `A` (canonical, `m × n`), `b` be the user's constraint data,
+`keepL` the presolver's `keep_logical`, `A' = A.select_rows(keep)` and `b' = b.select(keep)`
+the reduced data the solver works on (`Presolver::reduce_A_b`), `vout` the un-scaled point of
+the REDUCED problem and `r` what the model's `reverse_presolve` returns for it.  If `vout`
+passes the documented termination test on the reduced data `(P, q, A', b')` — the conclusion
+of `solved_certifies_user_problem` for the reduced problem — then the returned full-length
+`(x, s, z)` satisfies on the user's FULL data `(P, q, A, b)`:
+* the dual residual test verbatim (`z = 0` on dropped rows makes `Aᵀz = A'ᵀz'`, `‖z‖ = ‖z'‖`);
+* the gap test verbatim (`bᵀz = b'ᵀz'`);
+* the primal residual test with the residual norm and `‖s‖` taken over the KEPT rows;
+* on every dropped row `s = infbound`, `z = 0`.
+Composes `presolve_transparent` (the model's reversal), C09's `reduced_problem_dense`
+(rows of `A'` are the kept rows of `A`, imports `C16.selectRows_spec`) and
+`InfoPresolve.solved_full_problem`.  (`b'` is `select(b, keep)`; the additional cap
+`min(·, infbound)` of the internal `b` is C09's `cap` and changes no kept row of a
+nonnegative cone.) -/
+theorem solved_certifies_user_problem_presolved {n m mr : ℕ} (keepL : List Bool)
+    (hm : keepL.length = m) (hmr : keepL.count true = mr)
+    (P : Fin n → Fin n → ℝ) (q : Fin n → ℝ)
+    (A A' : Csc ℝ) (b : Array ℝ) (hAc : C16.Canonical A) (hAm : A.m = m) (hAn : A.n = n)
+    (hb : b.size = m) (hsel : A.selectRows keepL.toArray = .ok A')
+    (infbound : ℝ) (sol r : Unscale.Solution ℝ) (vout : Vars ℝ)
+    (hrev : Unscale.reversePresolve { keep := keepL.toArray, infbound := infbound } sol vout = .ok r)
+    (normb normq tolFeas tolGapAbs tolGapRel : ℝ)
+    (hprim : nrm (fun k => mulV (matFn A' mr n) (vecFn vout.x n) k + vecFn vout.s mr k
+                  - vecFn (Vec.select b keepL.toArray) mr k)
+              / max 1 (normb + nrm (vecFn vout.x n) + nrm (vecFn vout.s mr)) < tolFeas)
+    (hdual : nrm (fun j => mulV P (vecFn vout.x n) j + mulVT (matFn A' mr n) (vecFn vout.z mr) j + q j)
+              / max 1 (normq + nrm (vecFn vout.x n) + nrm (vecFn vout.z mr)) < tolFeas)
+    (hgap :
+      let pobj := dot (vecFn vout.x n) (mulV P (vecFn vout.x n)) / 2 + dot q (vecFn vout.x n)
+      let dobj := -dot (vecFn (Vec.select b keepL.toArray) mr) (vecFn vout.z mr)
+                    - dot (vecFn vout.x n) (mulV P (vecFn vout.x n)) / 2
+      |pobj - dobj| < tolGapAbs ∨ |pobj - dobj| / max 1 (min |pobj| |dobj|) < tolGapRel) :
+    let x := vecFn r.x n
+    let s := vecFn r.s m
+    let z := vecFn r.z m
+    let keep := keepFn keepL m
+    let pobj := dot x (mulV P x) / 2 + dot q x
+    let dobj := -dot (vecFn b m) z - dot x (mulV P x) / 2
+    nrmKept keep (fun i => mulV (matFn A m n) x i + s i - vecFn b m i)
+        / max 1 (normb + nrm x + nrmKept keep s) < tolFeas
+    ∧ nrm (fun j => mulV P x j + mulVT (matFn A m n) z j + q j) / max 1 (normq + nrm x + nrm z) < tolFeas
+    ∧ (|pobj - dobj| < tolGapAbs ∨ |pobj - dobj| / max 1 (min |pobj| |dobj|) < tolGapRel)
+    ∧ ∀ i, keep i = false → s i = infbound ∧ z i = 0 := by
+  obtain ⟨hx, hfacts⟩ := presolve_transparent _ sol vout r hrev
+  have hfacts' : ∀ k, (hk : k < keepL.length) →
+      (keepL[k] = true →
+          r.s[k]? = vout.s[Unscale.rank keepL k]? ∧ r.z[k]? = vout.z[Unscale.rank keepL k]?
+          ∧ (vout.s[Unscale.rank keepL k]?).isSome ∧ (vout.z[Unscale.rank keepL k]?).isSome)
+      ∧ (keepL[k] = false → r.s[k]? = some infbound ∧ r.z[k]? = some 0) := by
+    intro k hk
+    have := hfacts k (by simpa using hk)
+    simpa using this
+  obtain ⟨hdrop, hkept⟩ := reversal_fn_facts_of_transparent keepL hm hmr infbound r.s r.z vout.s vout.z hfacts'
+  obtain ⟨A'', hsel', -, -, -, hdense, -⟩ := C09.reduced_problem_dense A keepL hAc (by rw [hm, hAm])
+  have hA'' : A'' = A' := by rw [hsel'] at hsel; exact Except.ok.inj hsel
+  subst hA''
+  have hA' := matFn_reduced (n := n) keepL hm hmr A A'' hAm hAn hdense
+  have hb' := vecFn_select keepL hm hmr b hb
+  rw [hx]
+  exact solved_full_problem (embFin keepL hm hmr) (keepFn keepL m) (embFin_injective keepL hm hmr)
+    (embFin_keep_iff keepL hm hmr) P q (matFn A m n) (vecFn b m) (vecFn r.s m) (vecFn r.z m)
+    (matFn A'' mr n)
+    (vecFn (Vec.select b keepL.toArray) mr) (vecFn vout.s mr) (vecFn vout.z mr)
+    hA' hb' (fun k => (hkept k).1) (fun k => (hkept k).2) infbound hdrop (vecFn vout.x n)
+    normb normq tolFeas tolGapAbs tolGapRel hprim hdual hgap
+
+end presolved
+
 /-! ### non-vacuity -/
 
 /-- a 2×2 LP over `ℚ` with non-trivial `d, e, c, τ`: the hypotheses of `residual_unscale`
@@ -477,5 +684,145 @@ example :
         (fun r => (r.1.x, r.1.s, r.1.z, r.1.obj_val, r.1.iterations))
     = some (#[10], #[1, 99, 2], #[3, 0, 12], none, 4) := by
   decide +kernel
+
+section fromnew
+open Clarabel.InfoUser Clarabel.Presolve Clarabel.Cones
+
+/-- **[S] `C01.problemdata_new_supplies`** (imports `C09.problemdata_new_spec`) — what
+`DefaultProblemData::new` supplies towards the hypotheses `UserData` of the end-to-end
+theorems: for the record `d` it returns (canonical user `A` with `|b|` rows, cone list covering
+them, square `P`), the equilibration data are fresh (`UserData.fresh`), `d.A` — the user's `A`
+or its presolve reduction `A[keep,:]` — is canonical (`UserData.canA`), `d.q = q`, `d.n = A.n`,
+and the (collapsed, possibly reduced) cone list covers the `d.m` rows (`UserData.numel`).
+(`UserData.shape` and `UserData.canP` — the triangle `P.to_triu()` — are not derived here.) -/
+theorem problemdata_new_supplies (P : Csc ℝ) (q : Array ℝ) (A : Csc ℝ) (b : Array ℝ)
+    (cones : List (ConeT ℝ)) (presolve : Bool) (inf : ℝ) (d : ProblemData ℝ)
+    (hA : C16.Canonical A) (hAm : A.m = b.size) (hnum : numel cones = b.size) (hPsq : P.m = P.n)
+    (h : ProblemData.new P q A b cones presolve false inf = .ok d) :
+    d.equilibration = EquilData.new d.n d.m ∧ C16.Canonical d.A ∧ d.q = q ∧ d.n = A.n
+    ∧ numel d.cones = d.m := by
+  obtain ⟨keep, Pn, d', -, -, -, -, hnew, -, hq, hn, hfresh, hrest⟩ :=
+    C09.problemdata_new_spec P q A b cones presolve inf hA hAm hnum hPsq
+  have hd : d' = d := by rw [hnew] at h; exact Except.ok.inj h
+  subst hd
+  refine ⟨hfresh, ?_, hq, hn, ?_⟩
+  · split at hrest
+    · obtain ⟨A', -, hc, hdA, -⟩ := hrest
+      rw [hdA]; exact hc
+    · rw [hrest.1]; exact hA
+  · split at hrest
+    · obtain ⟨A', -, -, -, -, -, -, -, hnm, -⟩ := hrest
+      exact hnm
+    · obtain ⟨-, -, hc, hm, -⟩ := hrest
+      rw [hc, hm, C09.collapse_numel, hnum, hAm]
+
+/-- non-vacuity: `ProblemData.new` succeeds under these hypotheses (`C09.problemdata_new_spec`
+is an existence statement) — the 1×1 instance of `InfoEndToEndExample.lean` -/
+example : ∃ d, ProblemData.new zData.P #[0] zData.A #[0] [.nonneg 1] true false (100:ℝ) = .ok d := by
+  obtain ⟨_, _, d, _, _, _, _, hnew, _⟩ := C09.problemdata_new_spec zData.P #[0] zData.A #[0]
+    [ConeT.nonneg 1] true (100:ℝ) zData_user.canA rfl rfl rfl
+  exact ⟨d, hnew⟩
+
+end fromnew
+
+section norms
+variable {α : Type} [Add α] [Sub α] [Mul α] [Div α] [OfNat α 0] [OfNat α 1] [LT α] [DecidableLT α]
+  [BEq α] [FloatLike α]
+
+/-- **[S] `C01.cached_norms_are_users`** (any scalar type, `Float` included) — the `normb`,
+`normq` of the end-to-end theorems are the USER's `‖b‖∞`, `‖q‖∞` on a first solve:
+`DefaultProblemData::new` caches `norm_inf` of the `b` (capped, row-reduced) and `q` it stores,
+`equilibrate` never touches the cache (every pass rebuilds the record with `{dt with …}` on
+other fields only), and `get_normb` / `get_normq` return a cached value unchanged — so the
+numbers `Info.update` normalises the residuals with are the ∞-norms of the un-equilibrated
+data, not of `E b`, `c D q`. -/
+theorem cached_norms_are_users (P : Csc α) (q : Array α) (A : Csc α) (b : Array α)
+    (cones : List (ConeT α)) (pe ce : Bool) (inf : α) (dt dt' : ProblemData α)
+    (cones' : List (ConeT α)) (s : Equil.Settings α)
+    (hnew : ProblemData.new P q A b cones pe ce inf = .ok dt)
+    (heq : Equil.equilibrate dt cones' s = .ok dt') :
+    Info.getNormb dt'.normb dt'.b dt'.equilibration.einv = .ok (Vec.normInf dt.b)
+    ∧ Info.getNormq dt'.normq dt'.q dt'.equilibration.dinv dt'.equilibration.c = .ok (Vec.normInf q) :=
+  InfoUser.norms_are_users P q A b cones pe ce inf dt dt' cones' s hnew heq
+
+end norms
+
+/-! ### non-vacuity of the round-3 theorems -/
+
+section examples3
+open Clarabel.InfoUser Clarabel.Residuals
+
+/-- ALL hypotheses of `solved_certifies_user_problem` hold simultaneously on a concrete
+instance (`InfoUser.chain_example`: the 1×1 problem with no stored entries over the cone `ℝ₊`,
+equilibration disabled, the iterate `0`, `τ = 1`; `Residuals.update` and `Info.update` succeed
+and `check_convergence_full` says `Solved`) -/
+example : ∃ (dt dt' : ProblemData ℝ) (cones : List (ConeT ℝ)) (es : Equil.Settings ℝ) (v : Vars ℝ)
+    (r0 r : Resid ℝ) (i i' : InfoS ℝ) (normq normb : ℝ) (s : Settings ℝ),
+    UserData dt cones es ∧ Equil.equilibrate dt cones es = .ok dt'
+    ∧ StateShapes dt.n dt.m v r0 ∧ 0 < v.τ
+    ∧ Residuals.update r0 v (toResidData dt') = .ok r
+    ∧ Info.update i (toInfoEquil dt'.equilibration) normq normb v r = .ok i'
+    ∧ i'.status ≠ .solved
+    ∧ (checkConvergenceFull i' r.dot_bz r.dot_qx s).status = .solved :=
+  let ⟨r, i', h⟩ := chain_example
+  ⟨zData, zData, _, zEs, zVars, zRes0, r, zInfo, i', 0, 0, zSettings, h⟩
+
+/-- the hypotheses of `residuals_update_dense` are satisfiable (same instance) and the
+theorem yields a successful `Residuals.update` -/
+example : ∃ r, Residuals.update zRes0 zVars { P := zData.P, q := zData.q, A := zData.A, b := zData.b } = .ok r :=
+  let ⟨r, h, _⟩ := residuals_update_dense zRes0 zVars zData.P zData.A zData.q zData.b 1 1
+    zData_user.canP zData_user.canA rfl rfl rfl rfl rfl rfl zShapes
+  ⟨r, h⟩
+
+/-- `cone_membership_psd`: the identity 2×2 (svec `#[1, 0, 1]`) is PSD, hence so is its
+un-scaled image -/
+example : InfoCone.PsdSvec 2 (Vec.scale (#[1, 0, 1] : Array ℝ) 3) := by
+  refine (cone_membership_psd 2 _ 3 (by norm_num)).1 ?_
+  intro v
+  have hq : InfoCone.psdQuad 2 #[1, 0, 1] v = v 0 * v 0 + v 1 * v 1 := by
+    simp [InfoCone.psdQuad, Equil.quadForm, Fin.sum_univ_two, PsdTri.svecToMat, PsdIndex.triangularNumber]
+  rw [hq]
+  nlinarith [mul_self_nonneg (v 0), mul_self_nonneg (v 1)]
+
+/-- `cone_membership_genpow`: `α = (½, ½)`, `(u, w) = (1, 1, 0)` passes the model's primal test,
+hence so does its un-scaled image -/
+example : GenPow.isPrimalFeasible (#[1/2, 1/2] : Array ℝ) (Vec.scale #[1, 1, 0] 3) = .ok true := by
+  have ha : GenPow.AllPos ([1/2, 1/2] : List ℝ) := by
+    intro x hx; simp at hx; rcases hx with rfl | rfl <;> norm_num
+  refine (cone_membership_genpow #[1/2, 1/2] #[1, 1, 0] 3 (by norm_num) ha (by norm_num)).1 ?_
+  have := (InfoCone.isPrimalFeasible_iff_int [1/2, 1/2] [1, 1] [0] rfl).mpr
+    ⟨by intro x hx; simp at hx; subst hx; norm_num, by simp [GenPow.sumSq, GenPow.prodPhiP]⟩
+  simpa using this
+
+/-- `returned_point_in_cones`: its hypotheses are satisfiable — the instance above
+(`equilibrate` succeeds, `ŝ = ẑ = 0 ∈ ℝ₊`, `τ = 1`) -/
+example : Equil.ValidCones [ConeT.nonneg 1]
+    ∧ Equil.equilibrate zData [.nonneg 1] zEs = .ok zData
+    ∧ Equil.CompositeMem Equil.ConeMem [ConeT.nonneg 1] zVars.s.toList
+    ∧ Equil.CompositeMem Equil.ConeMemDual [ConeT.nonneg 1] zVars.z.toList := by
+  refine ⟨?_, zData_equil, ?_, ?_⟩
+  · intro c hc; simp at hc; subst hc; simp [Equil.ValidCone]
+  · simp [Equil.CompositeMem, Equil.ConeMem, ConeT.nvars, zVars]
+  · simp [Equil.CompositeMem, Equil.ConeMemDual, ConeT.nvars, zVars]
+
+/-- `solved_certifies_user_problem_presolved`: the model's reversal succeeds on a 3-row
+problem whose middle row is dropped (so `hrev` is satisfiable; `InfoPresolveUser.lean` applies
+`solved_full_problem` with every hypothesis discharged on such an instance) -/
+example : ∃ r, Unscale.reversePresolve { keep := [true, false, true].toArray, infbound := (99:ℚ) }
+    (Unscale.Solution.new 1 3) { x := #[5], s := #[1, 2], z := #[3, 4], τ := 1, κ := 1 } = .ok r
+    ∧ r.s = #[1, 99, 2] ∧ r.z = #[3, 0, 4] := by
+  refine ⟨_, rfl, ?_, ?_⟩ <;> rfl
+
+/-- `cached_norms_are_users`: both hypotheses are satisfiable together (`ProblemData.new`
+succeeds on the 1×1 instance — `C09.problemdata_new_spec` —, and with equilibration disabled
+`equilibrate` returns its input) -/
+example : ∃ dt : ProblemData ℝ,
+    ProblemData.new zData.P #[0] zData.A #[0] [.nonneg 1] true false (100:ℝ) = .ok dt
+    ∧ Equil.equilibrate dt [.nonneg 1] zEs = .ok dt := by
+  obtain ⟨_, _, d, _, _, _, _, hnew, _⟩ := C09.problemdata_new_spec zData.P #[0] zData.A #[0]
+    [ConeT.nonneg 1] true (100:ℝ) zData_user.canA rfl rfl rfl
+  exact ⟨d, hnew, C10.disabled_is_identity _ _ _ rfl⟩
+
+end examples3
 
 end Clarabel.C01
